@@ -15,14 +15,11 @@ Hypothesis Kc : char0 K.
 Variable floorK : K -> Z.
 Variable nearK : K -> Z.
 
-Definition buf_ok (sizes : list Z) (X : list K) : Prop :=
-  Forall2 (fun n x => inside_buffer floorK n x = true) sizes X.
-
 Theorem sample_matches_itk_border2 (ac : bool) (dflt : K)
         (tn ts tc : nat -> K) (td : nat -> nat -> K) (ss sc : nat -> K) (sd : nat -> nat -> K)
         (img : list (list K)) (J : list K) :
   wf 2 tn ts td -> wf 2 (zsz (sz2 img)) ss sd -> length J = 2%nat ->
-  buf_ok (isizes2 img)
+  buf_ok floorK (isizes2 img)
     (itk_cindex 2 (vtab 2 tn) (vtab 2 ts) (vtab 2 tc) (tab 2 2 td) (zvec (isizes2 img)) (vtab 2 ss) (vtab 2 sc) (tab 2 2 sd) J) ->
   dp_sample2 floorK nearK Linear (PadMode PBorder) ac (vtab 2 tn) (vtab 2 ts) (vtab 2 tc) (tab 2 2 td) (vtab 2 ss) (vtab 2 sc) (tab 2 2 sd) img J
   = itk_resample2 floorK Linear dflt (vtab 2 tn) (vtab 2 ts) (vtab 2 tc) (tab 2 2 td) (vtab 2 ss) (vtab 2 sc) (tab 2 2 sd) img J.
@@ -40,7 +37,7 @@ Theorem sample_matches_itk_border3 (ac : bool) (dflt : K)
         (tn ts tc : nat -> K) (td : nat -> nat -> K) (ss sc : nat -> K) (sd : nat -> nat -> K)
         (img : list (list (list K))) (J : list K) :
   wf 3 tn ts td -> wf 3 (zsz (sz3 img)) ss sd -> length J = 3%nat ->
-  buf_ok (isizes3 img)
+  buf_ok floorK (isizes3 img)
     (itk_cindex 3 (vtab 3 tn) (vtab 3 ts) (vtab 3 tc) (tab 3 3 td) (zvec (isizes3 img)) (vtab 3 ss) (vtab 3 sc) (tab 3 3 sd) J) ->
   dp_sample3 floorK nearK Linear (PadMode PBorder) ac (vtab 3 tn) (vtab 3 ts) (vtab 3 tc) (tab 3 3 td) (vtab 3 ss) (vtab 3 sc) (tab 3 3 sd) img J
   = itk_resample3 floorK Linear dflt (vtab 3 tn) (vtab 3 ts) (vtab 3 tc) (tab 3 3 td) (vtab 3 ss) (vtab 3 sc) (tab 3 3 sd) img J.
@@ -55,3 +52,47 @@ Proof.
   cbn [dp_kernel3 kern3 vsample3 itk_linear3]. rewrite Hx, Hy, Hz. reflexivity.
 Qed.
 End C05Border.
+
+(* ---------- over the executable field, hypothesis in Q's order ---------- *)
+From Coq Require Import QArith Qround Qcanon Lqa.
+From DV Require Import Base.QcInst Model.SamplerQc Model.ResampleQc Proofs.QcFacts.
+
+Lemma buf_Qc (n : Z) (x : Qc) : (-(1 # 2) <= this x)%Q -> (this x < inject_Z n - (1 # 2))%Q ->
+  inside_buffer (K:=QcF) floorQ n x = true.
+Proof.
+  intros H0 H1.
+  assert (E : (this (fadd (K:=QcF) x half) == this x + (1 # 2))%Q) by (rewrite this_add, this_half; reflexivity).
+  unfold inside_buffer, inb, floorQ. rewrite E.
+  assert (G0 : (0 <= Qfloor (this x + (1 # 2)))%Z) by (apply Qfloor_nonneg; lra).
+  assert (G1 : (Qfloor (this x + (1 # 2)) < n)%Z) by (apply Qfloor_lt_Z; lra).
+  apply andb_true_intro. split; [apply Z.leb_le; exact G0 | apply Z.ltb_lt; exact G1].
+Qed.
+
+Lemma bufQ_ok (sizes : list Z) (X : list Qc) : bufQ sizes X -> buf_ok (K:=QcF) floorQ sizes X.
+Proof. intro H. induction H as [|n x s' X' [H0 H1] _ IH]; constructor; auto using buf_Qc. Qed.
+
+Lemma sample_matches_itk_border2_Qc (ac : bool) (dflt : QcF)
+      (tn ts tc : nat -> QcF) (td : nat -> nat -> QcF) (ss sc : nat -> QcF) (sd : nat -> nat -> QcF)
+      (img : list (list QcF)) (J : list QcF) :
+  wf (K:=QcF) 2 tn ts td -> wf (K:=QcF) 2 (zsz (K:=QcF) (sz2 (K:=QcF) img)) ss sd -> length J = 2%nat ->
+  bufQ (isizes2 (K:=QcF) img)
+    (itk_cindex (K:=QcF) 2 (vtab 2 tn) (vtab 2 ts) (vtab 2 tc) (tab 2 2 td) (zvec (K:=QcF) (isizes2 (K:=QcF) img)) (vtab 2 ss) (vtab 2 sc) (tab 2 2 sd) J) ->
+  qdp_sample2 Linear (PadMode PBorder) ac (vtab 2 tn) (vtab 2 ts) (vtab 2 tc) (tab 2 2 td) (vtab 2 ss) (vtab 2 sc) (tab 2 2 sd) img J
+  = qitk_resample2 Linear dflt (vtab 2 tn) (vtab 2 ts) (vtab 2 tc) (tab 2 2 td) (vtab 2 ss) (vtab 2 sc) (tab 2 2 sd) img J.
+Proof.
+  intros Ht Hs HJ Hok. apply (sample_matches_itk_border2 QcF QcF_field QcF_char0 floorQ nearQ); auto.
+  apply bufQ_ok. exact Hok.
+Qed.
+
+Lemma sample_matches_itk_border3_Qc (ac : bool) (dflt : QcF)
+      (tn ts tc : nat -> QcF) (td : nat -> nat -> QcF) (ss sc : nat -> QcF) (sd : nat -> nat -> QcF)
+      (img : list (list (list QcF))) (J : list QcF) :
+  wf (K:=QcF) 3 tn ts td -> wf (K:=QcF) 3 (zsz (K:=QcF) (sz3 (K:=QcF) img)) ss sd -> length J = 3%nat ->
+  bufQ (isizes3 (K:=QcF) img)
+    (itk_cindex (K:=QcF) 3 (vtab 3 tn) (vtab 3 ts) (vtab 3 tc) (tab 3 3 td) (zvec (K:=QcF) (isizes3 (K:=QcF) img)) (vtab 3 ss) (vtab 3 sc) (tab 3 3 sd) J) ->
+  qdp_sample3 Linear (PadMode PBorder) ac (vtab 3 tn) (vtab 3 ts) (vtab 3 tc) (tab 3 3 td) (vtab 3 ss) (vtab 3 sc) (tab 3 3 sd) img J
+  = qitk_resample3 Linear dflt (vtab 3 tn) (vtab 3 ts) (vtab 3 tc) (tab 3 3 td) (vtab 3 ss) (vtab 3 sc) (tab 3 3 sd) img J.
+Proof.
+  intros Ht Hs HJ Hok. apply (sample_matches_itk_border3 QcF QcF_field QcF_char0 floorQ nearQ); auto.
+  apply bufQ_ok. exact Hok.
+Qed.
